@@ -5,7 +5,8 @@ ROOT = os.path.dirname(os.path.dirname(os.path.abspath(__file__)))
 TB = ("Trusted base: TLC 1.8, the Host override (JVM double arithmetic, BigDecimal, StrictMath, java.text.Normalizer), "
       "the Go toolchain, the harness's abstraction function and tolerant comparators; ")
 SEM = ("TLA+ abstract machine BornoSem (small-step semantics: scopes, closures, heap, signals, absorbing errors) model-checked by TLC on the program family %s "
-       "(invariants and action properties in every state); every terminal state is emitted with the program and its prescribed behaviour and replayed into the interpreter rebuilt from /repo")
+       "(invariants and action properties in every state); every terminal state is emitted with the program and its prescribed behaviour and replayed into the interpreter rebuilt from /repo "
+       "(layout gaps filled with comments, text endings varied); where stated also: recorded runs of the real interpreter validated as behaviours of the trace specification TraceSem, and seeded random well-behaved programs (FamGen) / long runs (FamStress) replayed")
 def sem(fam, text, bound, ref):
     return dict(technique=SEM % fam,
         text="TLC executes every program of the family on the specification, checking the machine's invariants (absorbing errors, scope and heap discipline, local stores, append-only output) "
@@ -24,25 +25,25 @@ CHECKS = {
  "C02": sem("FamOps", "Exhaustive over the operator x value-pair matrix, seeded random nested expressions beyond it; cells the documentation leaves open are not judged.",
             "17 binary + 3 unary operators x 25 (quick) / 36 (thorough) pool values per side, 600 / 20000 random expressions of depth <= 3", "DESIGN.md 4.3, 6 (C02)"),
  "C03": sem("FamScope", "Exhaustive over all in-domain scope histories of the size bound, seeded random longer ones.",
-            "histories of total size 3 (quick) / 4 (thorough) over 2 colliding names, nesting <= 2, plus 3000 / 30000 random histories of 4-7 items, nesting <= 3", "DESIGN.md 4.4, 6 (C03)"),
+            "histories of total size 3 over 2 colliding names, nesting <= 2, plus 3000 (quick) / 30000 (thorough) random histories of 4-7 items, nesting <= 3, 13 lifetime / activation programs, every program also on one line; FamGen slice (400 / 6000 programs); trace validation of a sample", "DESIGN.md 4.4, 6 (C03)"),
  "C04": sem("FamCalls", "Exhaustive over return positions, closure-call interleavings and callee/arity cells within the bounds.",
-            "return at every nesting of depth <= 2 (quick) / 3 (thorough) of 7 context kinds; closure histories of length <= 4 / 6; recursion depth <= 6", "DESIGN.md 4.4, 6 (C04)"),
- "C05": sem("FamControl", "Exhaustive over control skeletons of the depth bound.", "skeleton depth 2 (quick, 1971 programs) / 3 (thorough)", "DESIGN.md 4.4, 6 (C05)"),
+            "return at every nesting of depth <= 2 (quick) / 3 (thorough) of 8 context kinds; closure histories of length <= 4 / 6; FamGen slice (400 / 6000 programs); FamStress (5200 returns, recursion 1000 deep, 2600 iterations); trace validation of a sample", "DESIGN.md 4.4, 6 (C04)"),
+ "C05": sem("FamControl", "Exhaustive over control skeletons of the depth bound.", "skeleton depth 2 (quick, 3663 programs) / 3 (thorough); FamGen slice; FamStress; trace validation of a sample", "DESIGN.md 4.4, 6 (C05)"),
  "C06": sem("FamFaults", "Every fault kind x position cell; replay also through the executable for exit status 70/0 and stream separation.",
-            "23 expression faults x 37 positions + 16 statement-level faults, x 1 (quick) / 4 (thorough) line paddings", "DESIGN.md 4.4, 6 (C06)"),
- "C07": sem("FamWild + FamMath + FamOps", "Only the outcome class is judged here: a recovered panic, a worker killed by a fatal error, or a hang is a violation; programs whose output is unspecified are still run.",
-            "46 forms x 20 values x 6 partners, cyclic values, deep nesting, 2500 (quick) / 40000 (thorough) seeded random programs; coverage-guided fuzzing is not used (other technique family)", "DESIGN.md 6 (C07)"),
+            "25 expression faults x 37 positions + 23 statement-level faults, x 1 (quick) / 4 (thorough) line paddings; trace validation of every program", "DESIGN.md 4.4, 6 (C06)"),
+ "C07": sem("FamWild + FamMath + FamOps + FamCalls + FamFaults", "Only the outcome class is judged here: a recovered panic, a worker killed by a fatal error, or a hang is a violation; programs whose output is unspecified are still run.",
+            "46 forms x 20 values x 6 partners, cyclic values, deep nesting, 2500 (quick) / 20000 (thorough) seeded random programs; coverage-guided fuzzing is not used (other technique family)", "DESIGN.md 6 (C07)"),
  "C11": sem("FamArrays", "Exhaustive over array-operation histories of the length bound; both variables printed after every step (pure list model).",
-            "histories of <= 2 (quick) / 3 (thorough) of 41 operations + one of 29 bad-index operations, 300 / 5000 random histories of 12 / 25 operations", "DESIGN.md 4.4, 6 (C11)"),
+            "histories of <= 2 of 51 operations + one of 44 bad-index operations, 300 (quick) / 15000 (thorough) random histories of 12 operations; FamGen slice; trace validation of a sample", "DESIGN.md 4.4, 6 (C11)"),
  "C12": sem("FamObjects", "Exhaustive over object-operation histories of the length bound; listing order is free but must be stable and keys/values aligned.",
-            "histories of <= 2 (quick) / 3 (thorough) of 32 operations + one of 12 misuses, 300 / 5000 random histories", "DESIGN.md 4.4, 6 (C12)"),
+            "histories of <= 2 of 55 operations + one of 12 misuses, each in two renderings (everything shown after every step / one object shown only before and after), 300 (quick) / 15000 (thorough) random histories; FamGen slice; trace validation of a sample", "DESIGN.md 4.4, 6 (C12)"),
  "C14": sem("FamOrder", "Probe-tag sequences fix the evaluation order; every truthiness representative under every consumer.",
-            "depth-1 and depth-2 probe forms (491 programs), 24 truthiness representatives x 6 consumers", "DESIGN.md 4.4, 6 (C14)"),
+            "depth-1 and depth-2 probe forms incl. error paths, 33 truthiness representatives (literals, computed, returned) x 6 consumers (516 programs); FamGen slice; trace validation", "DESIGN.md 4.4, 6 (C14)"),
  "C15": sem("FamPrint", "Numbers are checked by relation (denotes exactly the value, shortest digits, integers < 10^6 plain), strings exactly (NFC); also through the executable (real stdout bytes).",
             "60 boundary numbers + 300 (quick) / 20000 (thorough) random doubles, 60 strings over Latin/Bangla/marks/decomposable code points, each in 4-19 print forms", "DESIGN.md 4.3, 6 (C15)"),
  "C16": sem("FamProducers", "All producers of a value must behave as the single specification value does, hence pairwise identically.",
-            "87 one-hole contexts x 10 values x 6-10 producers (6237 programs)", "DESIGN.md 6 (C16)"),
- "C17": sem("FamMath", "abs/sqrt/round exactly; sin/cos (4 ulp), tan (8 ulp), pow (64 ulp) relative to fdlibm on the moderate domain, exact where every correct implementation agrees; clock() against the harness clock.",
+            "90 one-hole contexts x 12 values x 7-14 producers (8400 programs); producers of one value must also agree on every soft (coerce-or-reject) choice", "DESIGN.md 6 (C16)"),
+ "C17": sem("FamMath", "abs/sqrt/round exactly; sin/cos (4 ulp), tan (16 ulp), pow (64 ulp) relative to fdlibm on the moderate domain, exact where every correct implementation agrees; clock() against the harness clock.",
             "17 built-ins x 0..3 (quick) / 4 (thorough) arguments x 8 kinds; 30 boundary values + 200 / 20000 random doubles per unary function; 17x17 pow grid; 89 min/max lists", "DESIGN.md 4.3, 6 (C17)"),
  "C01": dict(
    technique="TLA+ specs BornoSyntax (ladder relation Canon, Yield, MinParen/FullParen/Strip) and BornoGrammar (predictive recogniser) checked against each other by TLC on every bounded tree / token sequence; trees and accepted sequences replayed into the real parser and compared node by node",
@@ -113,7 +114,7 @@ m = {
  ],
  "checks": checks,
  "not_applicable": na,
- "notes": "All checks: exit 0 = held (KNOWN-FINDING lines for entries of known_findings.jsonl), exit 1 + VIOLATION lines, exit 2 = infrastructure problem (never a verdict).",
+ "notes": "All checks: exit 0 = held (KNOWN-FINDING lines for entries of known_findings.txt), exit 1 + VIOLATION lines, exit 2 = infrastructure problem (never a verdict).",
 }
 json.dump(m, open(os.path.join(ROOT, "MANIFEST.json"), "w"), indent=1, ensure_ascii=False)
 print("MANIFEST.json: %d checks, %d not_applicable" % (len(checks), len(na)))
